@@ -125,9 +125,19 @@ static std::string tagstr(Tag t) { return fmt("(%u,%u)", get_layer(t), get_type(
 static Tag TA, TB, TC;
 static const Tag VX = make_tag(101, 3), VY = make_tag(102, 3), VZ = make_tag(103, 3), VY2 = make_tag(104, 3);
 struct TStep { bool del; Tag k, v; };
-static const int NTABLES = 4;
+// Tags with a zero component: (0,0) is numerically 0 (an occupied TagMap slot keyed on it has key == 0),
+// (0,1) has a zero layer, (1,0) = T10 a zero type.  FK(i) -> FV(i) are filler mappings whose keys no
+// cell carries; they only make a table grow (capacity 8 -> 16 at the 5th entry, 16 -> 32 at the 9th).
+static const Tag Z00 = make_tag(0, 0), Z01 = make_tag(0, 1), W0 = make_tag(105, 3), W1 = make_tag(106, 3);
+static Tag FK(int i) { return make_tag(50 + i, 5); }
+static Tag FV(int i) { return make_tag(70 + i, 5); }
+static const int NTABLES = 6;
 static std::vector<TStep> table_steps(int m) {
     switch (m) {
+        // (0,0) entered first, table grows at the 5th entry
+        case 4: return {{false, Z00, W0}, {false, Z01, W1}, {false, FK(1), FV(1)}, {false, FK(2), FV(2)}, {false, FK(3), FV(3)}};
+        // (0,0) entered third (before both growths), (0,1) sixth (between them), nine entries
+        case 5: return {{false, FK(1), FV(1)}, {false, FK(2), FV(2)}, {false, Z00, W0}, {false, FK(3), FV(3)}, {false, FK(4), FV(4)}, {false, Z01, W1}, {false, FK(5), FV(5)}, {false, FK(6), FV(6)}, {false, FK(7), FV(7)}};
         case 0: return {{false, T10, T20}};
         case 1: return {{false, T10, T20}, {false, T20, T10}};
         case 2: return {{false, TA, VX}, {false, TB, VY}, {false, TC, VZ}, {false, TA, TA}, {false, TB, TB}};  // only TC->VZ remains
@@ -315,7 +325,7 @@ static int new_cell(World& w, const char* name, int variant, int serial) {
     c->init(name);
     double d = 10.0 * serial;
     Tag tp = variant ? T20 : T10;
-    Tag tf[2] = {variant ? T10 : T20, TA};
+    Tag tf[3] = {variant ? T10 : T20, TA, Z00};
     Tag tr = variant ? TC : TB;
     Tag tl = variant ? TB : T20;
     Polygon* p = (Polygon*)allocate_clear(sizeof(Polygon));
@@ -323,8 +333,8 @@ static int new_cell(World& w, const char* name, int variant, int serial) {
     set_property(p->properties, "pp", (int64_t)serial, false);
     c->polygon_array.append(p);
     FlexPath* f = (FlexPath*)allocate_clear(sizeof(FlexPath));
-    const double widths[2] = {0.5, 0.25}, offsets[2] = {-0.5, 0.5};
-    f->init(Vec2{d, 5}, 2, widths, offsets, 0.01, tf);
+    const double widths[3] = {0.5, 0.25, 0.125}, offsets[3] = {-0.5, 0.5, 1.0};
+    f->init(Vec2{d, 5}, 3, widths, offsets, 0.01, tf);
     f->segment(Vec2{d + 3, 5}, NULL, NULL, false);
     f->segment(Vec2{d + 3, 8}, NULL, NULL, false);
     c->flexpath_array.append(f);
@@ -339,12 +349,17 @@ static int new_cell(World& w, const char* name, int variant, int serial) {
     l->origin = Vec2{d, -1};
     l->tag = tl;
     c->label_array.append(l);
+    Label* l2 = (Label*)allocate_clear(sizeof(Label));
+    l2->init("second label");
+    l2->origin = Vec2{d, -2};
+    l2->tag = Z01;
+    c->label_array.append(l2);
     set_property(c->properties, "cp", name, false);
     MObj o;
     o.name = name;
     o.ptr = c;
-    o.tags = {tp, tf[0], tf[1], trs[0], trs[1], tl};
-    o.nshape = 5;
+    o.tags = {tp, tf[0], tf[1], tf[2], trs[0], trs[1], tl, Z01};
+    o.nshape = 6;
     return add_obj(w, std::move(o));
 }
 static Reference* new_ref(World& w, int owner) {
@@ -1346,10 +1361,39 @@ static std::vector<TStep> etable_steps(int m) {
         default: return {{false, a, b}, {false, b, c}, {false, c, VX}, {false, VX, VY}, {false, VY, VZ}};
     }
 }
-struct EnumCfg { int nf, nr, f[3], r[3], p; };
+// Second family: element / polygon / label tags over {(0,0), (0,1), (1,0)} and tables keyed on them
+// that grow past 4 and past 8 entries with the (0,0) entry entered first, in the middle or last.
+static const int N_ZTABLES = 13;
+static std::vector<TStep> ztable_steps(int m) {
+    const Tag z = Z00, o = Z01, p = T10;
+    auto fill = [](std::vector<TStep>& v, int from, int n) { for (int i = 0; i < n; i++) v.push_back({false, FK(from + i), FV(from + i)}); };
+    std::vector<TStep> v;
+    switch (m) {
+        case 0: return {{false, z, W0}};
+        case 1: return {{false, z, o}, {false, o, p}};                                   // chain through the zero tags
+        case 2: return {{false, p, z}, {false, z, p}};                                   // swap with (0,0) as key and value
+        case 3: v = {{false, z, W0}, {false, o, W1}}; fill(v, 1, 3); return v;           // 5 entries, (0,0) first
+        case 4: fill(v, 1, 2); v.push_back({false, z, W0}); v.push_back({false, o, W1}); fill(v, 3, 1); return v;  // 5, middle
+        case 5: fill(v, 1, 3); v.push_back({false, o, W1}); v.push_back({false, z, W0}); return v;                 // 5, last
+        case 6: v = {{false, z, W0}, {false, o, W1}, {false, p, Z00}}; fill(v, 1, 6); return v;                    // 9 entries, first
+        case 7: fill(v, 1, 5); v.push_back({false, z, W0}); v.push_back({false, o, W1}); fill(v, 6, 2); return v;  // 9, after 1st growth
+        case 8: fill(v, 1, 7); v.push_back({false, o, W1}); v.push_back({false, z, W0}); return v;                 // 9, last
+        case 9: v = {{false, z, o}, {false, o, p}}; fill(v, 1, 3); return v;             // chain + growth
+        case 10: v = {{false, z, W0}}; fill(v, 1, 4); v.push_back({false, z, z}); return v;  // (0,0) withdrawn after growth
+        case 11: v = {{false, p, z}, {false, o, W1}}; fill(v, 1, 3); return v;           // (0,0) as a value only, growth
+        default: fill(v, 1, 4); v.push_back({false, z, W0}); fill(v, 5, 12); return v;   // 17 entries (third growth), (0,0) fifth
+    }
+}
+struct EnumFamily { Tag al[3]; int ntables; std::vector<TStep> (*steps)(int); };
+static EnumFamily enum_family(int fam) {
+    if (fam == 0) return {{TA, TB, TC}, N_ETABLES, etable_steps};
+    return {{Z00, Z01, T10}, N_ZTABLES, ztable_steps};
+}
+struct EnumCfg { int fam, nf, nr, f[3], r[3], p; };
 static const vf::Radix ENUM_RADIX = {{2, 3, 27, 27, 3}};
 static bool enum_decode(int64_t idx, EnumCfg& c) {  // false: not the canonical index of its configuration
-    std::vector<int> v = ENUM_RADIX.decode(idx);
+    c.fam = (int)(idx / ENUM_RADIX.total());
+    std::vector<int> v = ENUM_RADIX.decode(idx % ENUM_RADIX.total());
     c.nf = 2 + v[0];
     c.nr = 1 + v[1];
     for (int i = 0, x = v[2]; i < 3; i++, x /= 3) c.f[i] = x % 3;
@@ -1381,37 +1425,40 @@ static Cell* enum_cell(const char* name, int nf, const Tag* ft, int nr, const Ta
     return c;
 }
 static std::string enum_case_json(const EnumCfg& c, int m, int level) {
-    const Tag al[3] = {TA, TB, TC};
+    EnumFamily F = enum_family(c.fam);
+    const Tag* al = F.al;
     std::string ft, rt;
     for (int i = 0; i < c.nf; i++) ft += tagstr(al[c.f[i]]);
     for (int i = 0; i < c.nr; i++) rt += tagstr(al[c.r[i]]);
     return jobj({{"flexpath_element_tags", jstr(ft)}, {"robustpath_element_tags", jstr(rt)}, {"polygon_tag", jstr(tagstr(al[c.p]))}, {"label_tag", jstr(tagstr(al[(c.p + 1) % 3]))},
-                 {"table", jstr(m < 0 ? "all" : table_name(etable_steps(m)))}, {"call", jstr(level < 0 ? "both" : level ? "Library::remap_tags (library also holds a fixed second cell)" : "Cell::remap_tags")}});
+                 {"table", jstr(m < 0 ? "all" : table_name(F.steps(m)))}, {"call", jstr(level < 0 ? "both" : level ? "Library::remap_tags (library also holds a fixed second cell)" : "Cell::remap_tags")}});
 }
 static void enum_one(int64_t idx) {
     EnumCfg cfg;
     if (!enum_decode(idx, cfg)) return;
-    const Tag al[3] = {TA, TB, TC};
+    EnumFamily F = enum_family(cfg.fam);
+    const Tag* al = F.al;
     const std::string sub = "remap.enum";
-    for (int m = 0; m < N_ETABLES; m++) {
-        std::vector<TStep> steps = etable_steps(m);
+    for (int m = 0; m < F.ntables; m++) {
+        std::vector<TStep> steps = F.steps(m);
         std::map<Tag, Tag> am = abstract_map(steps);
         for (int level = 0; level < 2; level++) {
             Tag ft[3], rt[3];
             for (int i = 0; i < 3; i++) { ft[i] = al[cfg.f[i]]; rt[i] = al[cfg.r[i]]; }
             std::vector<Cell*> cells = {enum_cell("E", cfg.nf, ft, cfg.nr, rt, al[cfg.p], al[(cfg.p + 1) % 3])};
             if (level) {
-                const Tag f2[3] = {TC, TA, TA}, r2[3] = {TA, TB, TC};
-                cells.push_back(enum_cell("F", 3, f2, 3, r2, TC, TA));
+                const Tag f2[3] = {al[2], al[0], al[0]}, r2[3] = {al[0], al[1], al[2]};
+                cells.push_back(enum_cell("F", 3, f2, 3, r2, al[2], al[0]));
             }
             std::vector<std::vector<Tag>> want(cells.size());
             std::vector<size_t> nshape(cells.size());
             std::vector<std::string> before(cells.size());
-            bool chained = false, later_element = false;
+            bool chained = false, later_element = false, zero_key_grown = false;
             for (size_t k = 0; k < cells.size(); k++) {
                 real_tags(*cells[k], want[k], nshape[k]);
                 before[k] = content_sig(*cells[k]);
                 for (auto& t : want[k]) {
+                    if (t == Z00 && am.count(Z00) && steps.size() >= 5) zero_key_grown = true;
                     Tag u = apply_once(am, t);
                     if (u != t && apply_once(am, u) != u) chained = true;
                     t = u;
@@ -1429,7 +1476,7 @@ static void enum_one(int64_t idx) {
                 cells[0]->remap_tags(tm);
             tm.clear();
             std::string replay = "sub=remap.enum idx=" + std::to_string(idx);
-            JFields base = {{"call", jstr(level ? "Library::remap_tags" : "Cell::remap_tags")}, {"table", jint(m)}, {"chained_for_this_cell", jbool(chained)}};
+            JFields base = {{"call", jstr(level ? "Library::remap_tags" : "Cell::remap_tags")}, {"family", jstr(cfg.fam ? "zero-component tags" : "colliding tags")}, {"table", jint(m)}, {"chained_for_this_cell", jbool(chained)}};
             std::set<Tag> lib_s, lib_l;
             for (size_t k = 0; k < cells.size(); k++) {
                 std::vector<Tag> got;
@@ -1492,17 +1539,21 @@ static void enum_one(int64_t idx) {
             if (chained || later_element) R->count("nontrivial");
             if (chained) R->count("remap_enum_chained");
             if (later_element) R->count("remap_enum_later_element_remapped");
+            if (zero_key_grown) R->count("remap_enum_tag00_remapped_by_grown_table");
         }
     }
 }
 static void remap_enum() {
     const std::string sub = "remap.enum";
-    int64_t n = ENUM_RADIX.total(), canonical = 0;
+    int64_t n = 2 * ENUM_RADIX.total(), canonical = 0;
     EnumCfg c;
     for (int64_t i = 0; i < n; i++) if (enum_decode(i, c)) canonical++;
     std::vector<std::string> names;
     for (int m = 0; m < N_ETABLES; m++) names.push_back(jstr(table_name(etable_steps(m))));
-    R->note("remap.enum tables: " + jarr(names));
+    R->note("remap.enum tables, family of colliding tags: " + jarr(names));
+    names.clear();
+    for (int m = 0; m < N_ZTABLES; m++) names.push_back(jstr(table_name(ztable_steps(m))));
+    R->note("remap.enum tables, family of zero-component tags (0,0),(0,1),(1,0): " + jarr(names));
     PFOptions opt;
     opt.sub = sub;
     opt.case_timeout_s = 20;
@@ -1513,8 +1564,9 @@ static void remap_enum() {
                            [&](int64_t g) { return "sub=remap.enum group=" + std::to_string(g); }, opt);
     for (int64_t i = n / 2; i < n; i++)
         if (enum_decode(i, c)) { R->sample(sub, enum_case_json(c, 3, 1)); break; }
-    R->bound(sub, fmt("%lld cell configurations (flexpath 2..3 elements x robustpath 1..3 elements, element tags over 3 colliding tags, polygon, label) x %d tables x {Cell,Library}::remap_tags", (long long)canonical, N_ETABLES), ok,
-             canonical * N_ETABLES * 2);
+    R->bound(sub, fmt("2 tag families (3 colliding tags; (0,0),(0,1),(1,0)) x %lld cell configurations each (flexpath 2..3 elements x robustpath 1..3 elements, element tags over the family's 3 tags, polygon, label) x %d / %d tables x {Cell,Library}::remap_tags",
+                      (long long)canonical / 2, N_ETABLES, N_ZTABLES), ok,
+             canonical / 2 * (N_ETABLES + N_ZTABLES) * 2);
 }
 
 int main(int argc, char** argv) {
@@ -1531,7 +1583,7 @@ int main(int argc, char** argv) {
         std::string sub = run.rarg("sub");
         if (sub == "remap.enum") {
             if (!run.rarg("idx").empty()) enum_one(atoll(run.rarg("idx").c_str()));
-            else { int64_t g = atoll(run.rarg("group").c_str()); for (int64_t i = g * 64; i < std::min(ENUM_RADIX.total(), (g + 1) * 64); i++) enum_one(i); }
+            else { int64_t g = atoll(run.rarg("group").c_str()); for (int64_t i = g * 64; i < std::min(2 * ENUM_RADIX.total(), (g + 1) * 64); i++) enum_one(i); }
             return run.finish();
         }
         int k = sub.size() > 10 ? atoi(sub.substr(10).c_str()) : 0;
